@@ -24,7 +24,9 @@ EXPLANATION = (
 
 
 def ex(binder, body):
-    return ("exists", binder, body)
+    from sa.canon import respell_loop
+    primes = len(binder) - len(binder.rstrip("'"))
+    return ("exists", respell_loop(binder.rstrip("'")) + "'" * primes, body)
 
 
 def forall(binder, body):
@@ -209,6 +211,8 @@ SCAN_KEYS = ["os_scan_cost", "service_scan_cost", "subnet_scan_cost", "process_s
 def find_guard(lf, conj, loops, allowed, swallowed):
     """a guard that implies `conj`, in the required loops, executed whenever `allowed` holds"""
     near = None
+    from sa.canon import respell_loop
+    loops = [respell_loop(l) for l in loops]
     for g in lf.guards:
         if g in swallowed:
             continue
@@ -296,15 +300,15 @@ def run(ctx, chk):
            okv and vt == DOC_SECTIONS, f"{vt}", path)
     chk.ob("C18.sections.optional", "optional sections: step_limit (int)",
            oko and ot == DOC_OPTIONAL, f"{ot}", path)
-    K = "each(Y.items())[0]"
+    K = "each(Y)"
     vshow = cn.show(lf.ip._const_term(valid)) if okv else "?"
     oshow = cn.show(lf.ip._const_term(opt)) if oko else "?"
     g1, near = find_guard(lf, f_or([A(f"{K} in {vshow}"), A(f"{K} in {oshow}")]), ["Y.items()"],
                           None, swallowed)
     chk.ob("C18.sections.unknown", "every key of the document is a required or optional section",
            g1 is not None, "" if g1 else "no guard over all keys of the document", path)
-    tg = [g for g in lf.guards if g.loops == ["Y.items()"] and lf.residual_formula(g) == ("true",)
-          and f_show(g.F).startswith("isinstance(each(Y.items())[1], ")
+    tg = [g for g in lf.guards if g.loops == ["Y"] and lf.residual_formula(g) == ("true",)
+          and f_show(g.F).startswith("isinstance(Y[each(Y)], ")
           and vshow in f_show(g.F) and oshow in f_show(g.F)]
     chk.ob("C18.sections.types", "every section value is checked against the type table",
            len(tg) >= 1, f"{len(tg)} guard(s)", path)
